@@ -255,11 +255,22 @@ def coq_case_ltf(name, cfg, res):
 
 
 def coq_case_vec(cfg, res):
+    """The lookup grid is the one recorded from the implementation's np.logspace call, thinned to the points
+    adjacent to each walked frequency (so that searchsorted-left on the thinned grid picks the same point);
+    the model does its own search."""
     N, fs, olap, bmin, Lmin, Jdes, Kdes = (cfg[k] for k in ("N", "fs", "olap", "bmin", "Lmin", "Jdes", "Kdes"))
     logfact = (N / 2) ** (1 / Jdes) - 1
     g = res["rec"].get("logspace")
-    grid = list(g[0][1]) if g else []
-    fuel = (len(res["plan"]["f"]) if res["ok"] else 0) + 3
+    grid = np.asarray(g[0][1], float) if g else np.zeros(0)
+    fl = np.asarray(res["plan"]["f"], float) if res["ok"] else np.zeros(0)
+    if len(grid) > 64 and len(fl):
+        idx = np.searchsorted(grid, fl, side="left")
+        last = fl[-1] + float(res["plan"]["r"][-1])
+        keep = set([0, len(grid) - 1]) | set(int(i) for i in idx if i < len(grid)) | set(int(i) - 1 for i in idx if i >= 1)
+        j = int(np.searchsorted(grid, last, side="left"))
+        keep |= {k for k in (j - 1, j) if 0 <= k < len(grid)}
+        grid = grid[sorted(keep)]
+    fuel = len(fl) + 3
     return "(run_vec %d %d %s %s %s %d %d %s [%s])" % (fuel, N, fhex(fs), fhex(olap), fhex(bmin), Lmin, Kdes, fhex(logfact), "; ".join(fhex(x) for x in grid))
 
 
